@@ -1,4 +1,6 @@
 import ComposeVerif.Lemmas.Name
+import ComposeVerif.Gen.NameFacts
+import ComposeVerif.Neg.C17
 /-!
 # C17 — project name and project environment follow the documented precedence
 
@@ -9,17 +11,40 @@ precedence as first-match lookup through ordered layers.
 namespace CV.Name
 open CV CV.Name.Spec
 
+/-! ## facts regenerated from the source -/
+
+/-- the constants the model was written against are the ones in the source now: the regexp and cutset of
+    `NormalizeProjectName` and the order of its string operations, the two environment-variable names, and the
+    order of the tests of `withNamePrecedenceLoad` (explicit name first, then `COMPOSE_PROJECT_NAME`) -/
+theorem source_constants_are_modelled :
+    CV.Gen.normalize_regex = "[a-z0-9_-]" ∧
+    CV.Gen.normalize_cutset = "_-" ∧
+    CV.Gen.normalize_calls = ["regexp.MustCompile", "strings.ToLower", "strings.Join", "r.FindAllString", "strings.TrimLeft"] ∧
+    CV.Gen.const_ComposeProjectName = String.ofList cpn ∧
+    CV.Gen.const_ComposeDisableDefaultEnvFile = String.ofList disableKey ∧
+    CV.Gen.namePrecedence_conds =
+      ["options.Name != \"\"",
+       "nameFromEnv, ok := options.Environment[consts.ComposeProjectName]; ok && nameFromEnv != \"\""] := by
+  decide
+
+/-- the character class and the cutset, read as sets of characters, are the predicates of the model -/
+theorem regex_class_is_isNameChar :
+    ((List.range 128).all fun n =>
+      isNameChar (Char.ofNat n) == "abcdefghijklmnopqrstuvwxyz0123456789_-".toList.contains (Char.ofNat n) &&
+      isSep (Char.ofNat n) == CV.Gen.normalize_cutset.toList.contains (Char.ofNat n)) = true := by
+  decide
+
 /-! ## normalisation -/
 
-/-- normalize_valid: a normalised name is empty or of the form `[a-z0-9][a-z0-9_-]*` -/
-theorem normalize_valid' (s : Str) : normalize s = [] ∨ validName (normalize s) = true := normalize_valid s
+/-- norm_valid: a normalised name is empty or of the form `[a-z0-9][a-z0-9_-]*` -/
+theorem normalize_valid (s : Str) : normalize s = [] ∨ validName (normalize s) = true := norm_valid s
 
-/-- normalize_idem: normalising twice is normalising once -/
-theorem normalize_idem' (s : Str) : normalize (normalize s) = normalize s := normalize_idem s
+/-- norm_idem: normalising twice is normalising once -/
+theorem normalize_idem (s : Str) : normalize (normalize s) = normalize s := norm_idem s
 
 /-- the fixed points of normalisation are exactly the empty string and the valid names: this is why the test
     `NormalizeProjectName(n) != n` of `WithName` / `loader.projectName` rejects exactly the invalid requests -/
-theorem normalize_fixed_iff' (s : Str) : normalize s = s ↔ (s = [] ∨ validName s = true) := normalize_fixed_iff s
+theorem normalize_fixed_iff (s : Str) : normalize s = s ↔ (s = [] ∨ validName s = true) := norm_fixed_iff s
 
 example : normalize "My.App".toList = "myapp".toList := by decide
 example : normalize "_-K8s".toList = "k8s".toList := by decide
@@ -82,7 +107,7 @@ theorem withName_invalid_rejected (w : World) (o : PO) (n : Str) (hn : n ≠ [])
     applyOpt w o (.withName n) = .error .invalidName := by
   have hne : normalize n ≠ n := by
     intro h
-    rcases (normalize_fixed_iff n).mp h with h | h
+    rcases (norm_fixed_iff n).mp h with h | h
     · exact hn h
     · rw [hv] at h; cases h
   simp [applyOpt, hne]
